@@ -23,6 +23,7 @@ def run(rep, W, ctx):
     S.s_class(rep, W)          # a read (GetSnapshot) leaves the stored bytes where they are
     S.c08(rep, W)
     from rules import wiring as WR
+    WR.c06_accum(rep, W, modules=("add_snapshot",))  # "id and bytes always from the same upload": the bytes are the upload, whole
     WR.c13_written(rep, W)     # the snapshot's version id / time / bytes are written by set_snapshot only, on both back ends
     H.c14_tables(rep, W, modules=("get_snapshot",))      # id header and bytes of the same record reach the client
     H.handler_args(rep, W)     # the handler hands AddSnapshot the path id and the body accumulated from this very request
